@@ -56,13 +56,21 @@ pub fn compile(model: &MNode, dump: &Dump, infosets: &[Vec<(&String, &[String])>
         infosets[0].iter().map(|(_, a)| a.to_vec()).collect(),
         infosets[1].iter().map(|(_, a)| a.to_vec()).collect(),
     ];
-    let mut chance_probs: Vec<Option<Vec<f64>>> = vec![None; dump.chance_probs.len()];
+    let chance_probs: Vec<Option<Vec<f64>>> = vec![None; dump.chance_probs.len()];
+    /// which model chance infoset (a name, or a fresh number for an unnamed node) each library
+    /// chance infoset stands for: the two partitions of the chance nodes must be the same
+    #[derive(Default)]
+    struct Part {
+        by_name: BTreeMap<String, usize>,
+        by_index: BTreeMap<usize, String>,
+        fresh: usize,
+    }
     fn walk(
         m: &MNode,
         d: &DumpNode,
         names: &[Vec<String>; 2],
         actions: &[Vec<Vec<String>>; 2],
-        cp: &mut Vec<Option<Vec<f64>>>,
+        cp: &mut (Vec<Option<Vec<f64>>>, Part),
     ) -> Result<RN, String> {
         match m {
             MNode::C { outs, .. } if outs.len() == 1 => walk(&outs[0].2, d, names, actions, cp),
@@ -72,14 +80,29 @@ pub fn compile(model: &MNode, dump: &Dump, infosets: &[Vec<(&String, &[String])>
                 DumpNode::Terminal(y) if x.to_bits() == y.to_bits() || (x - y).abs() <= 1e-9 * (1.0 + x.abs()) => Ok(RN::T(*x)),
                 _ => Err(format!("model terminal {x} vs library {d:?}")),
             },
-            MNode::C { outs, .. } => match d {
+            MNode::C { info, outs } => match d {
                 DumpNode::Chance { infoset, outcomes } if outcomes.len() == outs.len() => {
+                    let key = match info {
+                        Some(n) => format!("named:{n}"),
+                        None => {
+                            cp.1.fresh += 1;
+                            format!("unnamed:{}", cp.1.fresh)
+                        }
+                    };
+                    match (cp.1.by_name.get(&key), cp.1.by_index.get(infoset)) {
+                        (None, None) => {
+                            cp.1.by_name.insert(key.clone(), *infoset);
+                            cp.1.by_index.insert(*infoset, key);
+                        }
+                        (Some(i), Some(k)) if i == infoset && *k == key => {}
+                        _ => return Err(format!("chance nodes are partitioned into infosets differently: model chance infoset {info:?} vs library chance infoset {infoset}")),
+                    }
                     let probs: Vec<f64> = crate::model::normalised(&outs.iter().map(|(_, w, _)| *w).collect::<Vec<_>>());
-                    if *infoset >= cp.len() {
+                    if *infoset >= cp.0.len() {
                         return Err("chance infoset index out of range".into());
                     }
-                    match &cp[*infoset] {
-                        None => cp[*infoset] = Some(probs),
+                    match &cp.0[*infoset] {
+                        None => cp.0[*infoset] = Some(probs),
                         Some(old) => {
                             if old.len() != probs.len() || old.iter().zip(&probs).any(|(a, b)| (a - b).abs() > 1e-12) {
                                 return Err("nodes of one chance infoset declare different weights".into());
@@ -110,8 +133,9 @@ pub fn compile(model: &MNode, dump: &Dump, infosets: &[Vec<(&String, &[String])>
             },
         }
     }
-    let root = walk(model, &dump.root, &names, &actions, &mut chance_probs)?;
-    let chance_probs: Vec<Vec<f64>> = chance_probs.into_iter().map(|p| p.unwrap_or_default()).collect();
+    let mut state = (chance_probs, Part::default());
+    let root = walk(model, &dump.root, &names, &actions, &mut state)?;
+    let chance_probs: Vec<Vec<f64>> = state.0.into_iter().map(|p| p.unwrap_or_default()).collect();
     let mut singles: [Vec<(String, String)>; 2] = Default::default();
     for (p, infos) in model.infosets().iter().enumerate() {
         for (i, acts) in infos {
